@@ -162,6 +162,23 @@ def collision_docs():
     return spliced_docs(blocks, 40)
 
 
+def decorated_docs(blocks, per_doc=120):
+    """The optional per-item fields solc emits: `modifierDepth` (code inlined from a modifier) on every item, tag and
+    JUMPDEST included, and `jumpType` on JUMPs."""
+    out = []
+    for d in spliced_docs(blocks, per_doc):
+        d = copy.deepcopy(d)
+        for _p, items in docs.code_streams(d):
+            n = 0
+            for i, it in enumerate(items):
+                it["modifierDepth"] = 1 + (i // 5) % 3
+                if it["name"] == "JUMP":
+                    it["jumpType"] = ("[in]", "[out]")[n % 2]
+                    n += 1
+        out.append(d)
+    return out
+
+
 def unit_sets(tier):
     shipped = sorted(glob.glob(os.path.join(repo.REPO, "examples", "jsons-solc", "*.json_solc")), key=os.path.getsize)
     c1 = configs.configs(1)
@@ -169,6 +186,7 @@ def unit_sets(tier):
         yield "shipped(4 smallest)", [("file", f) for f in shipped[:4]], c1[:1] + [c for c in c1 if "-storage" in c or "-size" in c]
         yield "spliced(MIXED,3)", [("doc", d) for d in spliced_docs(list(B.tree(B.MIXED, 3)))], c1
         yield "pseudo-collisions", [("doc", d) for d in collision_docs()], c1[:1]
+        yield "decorated(MIXED,3)/3", [("doc", d) for d in decorated_docs(list(B.tree(B.MIXED, 3))[::3])], c1[:1] + [c for c in c1 if "-storage" in c]
         gd = list(c15.gen_docs())
         yield "grammar", [("doc", d) for d in gd[::3] + gd[-3:]], c1[:1] + [c for c in c1 if "-push0" in c]
     else:
@@ -178,6 +196,7 @@ def unit_sets(tier):
         yield "spliced(CORE,3)", [("doc", d) for d in spliced_docs(list(B.tree(B.CORE, 3)), 400)], c1
         yield "grammar", [("doc", d) for d in c15.gen_docs()], c1
         yield "pseudo-collisions", [("doc", d) for d in collision_docs()], c1
+        yield "decorated(MIXED,3)", [("doc", d) for d in decorated_docs(list(B.tree(B.MIXED, 3)))], c1
 
 
 def main(tier, seed, only=None):
